@@ -178,9 +178,9 @@ def main(argv=None):
     for b in bounded:
         if b.get('error'):
             errors.append('bounded %s: %s' % (b['name'], b['error']))
-        for v in b.get('violations', []):
+        if b.get('violations'):
             violations.append((b['name'], 'bounded', '%s/%s/bounded' % (prop, b['name']),
-                               {'status': 'concrete', 'model': v, 'native': True}, None))
+                               {'status': 'concrete', 'model': {'failing_inputs': b['violations']}, 'native': True}, None))
 
     wall = time.time() - t0
     rc = 0
